@@ -81,9 +81,12 @@ func c18RaceMain(args []string) int {
 		Mismatches []string `json:"mismatches"`
 	}
 	out := outT{}
+	drv.StartWatchdog()
 	for gi := lo; gi < hi && gi < len(groups); gi++ {
 		g := groups[gi]
 		out.Groups++
+		fmt.Fprintf(os.Stderr, "AT group %d %v\n", gi, g)
+		drv.WatchdogBegin("c18race group", uint64(gi))
 		for r := 0; r < reps; r++ {
 			start := make(chan struct{})
 			var wg sync.WaitGroup
